@@ -29,7 +29,7 @@ CHECKS = {
          "Exploration: compile() must return a package or a report for every generated text; the report must render with and without colour and every cited location must lie inside its file on char boundaries; panics, aborts and stack overflows are observed through worker isolation.",
          "Inputs <= 16 KiB and bracket depth <= 64; hangs are reported as inconclusive by a watchdog; locations come from hook verif_locations.",
          "DESIGN.md §4 C06"),
- "C07": ("three families: one type-breaking edit (32 kinds) on a well-typed generated program; a generator-driven wrong-typed value at one typed site; a self-contained ill-typed snippet (37 families) planted in a well-typed program; each must be rejected with a type error",
+ "C07": ("three families: one type-breaking edit (32 kinds) on a well-typed generated program; a generator-driven wrong-typed value at one typed site; a self-contained ill-typed snippet (39 families) planted in a well-typed program; each must be rejected with a type error",
          "Exploration: for each generated well-typed program one edit that is ill-typed by construction is applied at a random applicable site; compile must return a report starting with `Error: Type error`.",
          "Single defects only; soundness of the catalogue argued per edit in DESIGN.md; programs are generated without shadowing so that the scope edits stay ill-typed.",
          "DESIGN.md §4 C07"),
@@ -87,6 +87,8 @@ CHECKS = {
          "DESIGN.md §4 C10"),
 }
 NOT_YET = {}
+# in-process properties whose thorough tier also runs tools/cg_stage.sh
+CG = {"C01", "C02", "C03", "C05", "C07", "C08", "C09", "C13", "C14", "C15", "C17", "C18", "C20"}
 ALL = ["C%02d" % i for i in range(1, 21)]
 
 def main():
@@ -94,6 +96,8 @@ def main():
     for pid in ALL:
         if pid not in CHECKS: continue
         tech, text, note, ref = CHECKS[pid]
+        if pid in CG:
+            tech += "; thorough tier adds a coverage-guided stage: the same generator and oracle driven by libFuzzer (cargo-fuzz target prop_cg, 16 processes, seed corpus of proptest-generated cases)"
         checks.append({
             "property_id": pid,
             "quick_cmd": f"./check {pid} quick",
@@ -123,7 +127,7 @@ def main():
             "name": "roto-verif",
             "path": "/verif/harness",
             "serves_properties": [c["property_id"] for c in checks],
-            "kind_free_text": "Rust harness: proptest-driven generated cases (byte choice streams decoded into typed programs / histories / argument tuples), 16 shards each with a crash-isolated worker process, shrinking, replay files, known-findings matching, evidence writer",
+            "kind_free_text": "Rust harness (library + binary): proptest-driven generated cases (byte choice streams decoded into typed programs / histories / argument tuples), 16 shards each with a crash-isolated worker process, shrinking, replay files, known-findings matching, evidence writer",
         }],
         "checks": checks,
         "not_applicable": na,
